@@ -666,7 +666,7 @@ MANIFEST = {
 
 def run(ctx):
     ctx.enumerate("view", _fixed_cases(), name="fixed-scenarios", exhaustive=False)
-    ctx.search("view", cases(), quick=1000, thorough=3000)
+    ctx.search("view", cases(), quick=1000, thorough=6000)
 
 
 MUTANTS = [
